@@ -43,6 +43,21 @@ type dirGen struct {
 	strip  bool
 	quoted bool // inside a quoted string / JSON string: no raw newline, no quote
 	kind   string
+	// white space zoo (wszoo_test.go): the blanks inside %{ } sequences are, half of the time,
+	// runs of other white space
+	zoo  bool
+	note *zooNote
+}
+
+// sp writes the blank between two words of a directive.
+func (x *dirGen) sp() {
+	if x.zoo && uni(x.t, 2) == 0 {
+		s, names := zooRun(x.t)
+		x.emit(s)
+		x.note.add("directive", names)
+		return
+	}
+	x.emit(" ")
 }
 
 func (x *dirGen) pick(xs []string) string { return xs[uni(x.t, len(xs))] }
@@ -55,13 +70,13 @@ func (x *dirGen) open() {
 	}
 	x.emit(o)
 	if uni(x.t, 4) != 0 {
-		x.emit(" ")
+		x.sp()
 	}
 }
 
 func (x *dirGen) close() {
 	if uni(x.t, 4) != 0 {
-		x.emit(" ")
+		x.sp()
 	}
 	c := "}"
 	if x.strip && uni(x.t, 2) == 0 {
@@ -75,7 +90,7 @@ func (x *dirGen) dir(words ...string) {
 	x.open()
 	for i, w := range words {
 		if i > 0 {
-			x.emit(" ")
+			x.sp()
 		}
 		x.emit(w)
 	}
@@ -300,8 +315,8 @@ func (x *dirGen) block(depth int, nearMiss bool) {
 }
 
 // genDirectiveTemplate returns the text of a template (no container) and its labels.
-func genDirectiveTemplate(t *rapid.T, quoted bool) (string, []string) {
-	x := &dirGen{t: t, quoted: quoted}
+func genDirectiveTemplate(t *rapid.T, quoted bool, note *zooNote) (string, []string) {
+	x := &dirGen{t: t, quoted: quoted, zoo: note != nil, note: note}
 	x.kind = dirKinds[uni(t, len(dirKinds))]
 	x.strip = uni(t, 3) == 0
 	depth := uni(t, 4) // 0..3
@@ -329,7 +344,20 @@ var dirContainers = []string{"quoted", "heredoc", "heredoc-flush", "bare", "json
 func genDirectiveCase(t *rapid.T) Case {
 	cont := dirContainers[uni(t, len(dirContainers))]
 	quoted := cont == "quoted" || cont == "json-string"
-	tmpl, labels := genDirectiveTemplate(t, quoted)
+	// one case in five: white space zoo inside the directives and around the heredoc markers
+	var note *zooNote
+	if uni(t, 5) == 0 {
+		note = &zooNote{}
+	}
+	z := func(slot string) string {
+		if note == nil || uni(t, 2) == 0 {
+			return ""
+		}
+		s, names := zooRun(t)
+		note.add(slot, names)
+		return s
+	}
+	tmpl, labels := genDirectiveTemplate(t, quoted, note)
 	labels = append(labels, "in:"+cont)
 	recovery := uni(t, 4) == 0
 	if recovery {
@@ -342,9 +370,9 @@ func genDirectiveCase(t *rapid.T) Case {
 	case "quoted":
 		expr = "\"" + tmpl + "\""
 	case "heredoc":
-		expr = "<<EOT\n" + tmpl + "\nEOT\n"
+		expr = "<<EOT" + z("hd-open-post") + "\n" + tmpl + z("hd-line-end") + "\n" + z("hd-close-pre") + "EOT" + z("hd-close-post") + "\n"
 	case "heredoc-flush":
-		expr = "<<-EOT\n    " + strings.ReplaceAll(tmpl, "\n", "\n    ") + "\n  EOT\n"
+		expr = "<<-EOT" + z("hd-open-post") + "\n    " + strings.ReplaceAll(tmpl, "\n", "\n    ") + z("hd-line-end") + "\n  " + z("hd-close-pre") + "EOT" + z("hd-close-post") + "\n"
 	}
 	switch cont {
 	case "bare":
@@ -355,7 +383,7 @@ func genDirectiveCase(t *rapid.T) Case {
 		c.Src = []byte(tmpl)
 	case "json-string":
 		c.Entry = []string{eJSON, eJSONExpr}[uni(t, 2)]
-		js := strings.NewReplacer("\\", "\\\\", "\"", "\\\"", "\n", "\\n").Replace(tmpl)
+		js := strings.NewReplacer("\\", "\\\\", "\"", "\\\"", "\n", "\\n", "\f", "\\f", "\r", "\\r", "\v", "\\u000b", "\t", "\\t").Replace(tmpl)
 		if c.Entry == eJSON {
 			c.Src = []byte("{\"a\": \"" + js + "\", \"b\": [\"" + js + "\"]}")
 		} else {
@@ -396,6 +424,9 @@ func genDirectiveCase(t *rapid.T) Case {
 				c.Src = []byte(pre + "a = " + expr + "\n")
 			}
 		}
+	}
+	if note != nil {
+		labels = append(labels, note.labels()...)
 	}
 	c.Mut = labels
 	return c
